@@ -444,7 +444,9 @@ func cmdCheck(args []string) int {
 	// already): a failing oracle is a violation with a concrete failing input,
 	// otherwise the obligations stay undecided and are reported as such.
 	var fallbackOut []map[string]any
-	if len(undecided) > 0 && violations == 0 {
+	// (the thorough tier runs them in any case: a change can move code out from under the
+	// obligation a replay test is attached to without making anything undecided)
+	if (len(undecided) > 0 || *tier == "thorough") && violations == 0 {
 		ran := map[string]bool{}
 		for _, bs := range cfg.Bounded {
 			ran[bs.File+" "+bs.Run] = true
@@ -474,7 +476,11 @@ func cmdCheck(args []string) int {
 					"decided_by": "executable oracle run because the obligations above could not be evaluated against the current code",
 					"replay_test": rp, "replay_output": lastBytes(out, 8000), "replayed": "counterexample reproduced on the real code"}, "", " ")
 				os.WriteFile(rf, jb, 0o644)
-				fmt.Printf("VIOLATION property=%s replay=%s obligation=%s (undecided; decided by oracle %s)\n", id, rf, undecided[0], rp.Run)
+				what := "replay of " + rp.Match
+				if len(undecided) > 0 {
+					what = undecided[0] + " (undecided; decided by oracle " + rp.Run + ")"
+				}
+				fmt.Printf("VIOLATION property=%s replay=%s obligation=%s\n", id, rf, what)
 				violations++
 			}
 			fallbackOut = append(fallbackOut, fe)
